@@ -186,18 +186,34 @@ def run(ctx):
     # library: Signature::v for every boundary chain id (harness sig.v) — never a wrapped value
     calls = []
     cs = [None, 0, 1, (1 << 64), LMAX]
+    # recovery ids 2 and 3 (x of R not below n; only the library API can make them) carry y parity 0 and 1
     for c in cs:
-        for p in (0, 1):
+        for p in (0, 1, 2, 3):
             calls.append(("sig.v", (1).to_bytes(32, "big"), (1).to_bytes(32, "big"), bytes([p]), b"" if c is None else b"\x01" + c.to_bytes(32, "big")))
     res = ctx.harness(calls)
     k = 0
     for c in cs:
-        for p in (0, 1):
+        for p in (0, 1, 2, 3):
             ctx.count("Signature::v")
-            want = 27 + p if c is None else 35 + 2 * c + p
+            want = 27 + (p & 1) if c is None else 35 + 2 * c + (p & 1)
             if res[k].tag != "ok" or int.from_bytes(res[k].fields[0], "big") != want:
                 ctx.violation("v-exact(library)", dict(chain_id=c, parity=p), want, str(res[k])[:200])
             k += 1
+    # spellings of the override flag with a value: whatever `=true` means, a value that says NO does not lift the refusal
+    t = txgen.rand_tx(rng, kind=0, chain="none", small=True)
+    pth = os.path.join(tmp, "nochain.json")
+    open(pth, "w").write(txgen.render(rng, t))
+    fl = []
+    for val in ("false", "False", "FALSE", "0", "no", "off", "n", "f", "", "true", "1", "yes"):
+        for so in ([], ["--signature-only"]):
+            fl.append(dict(args=["sign", "--mnemonic", PHRASE, "transaction", "--allow-missing-relay-protection=" + val] + so + [pth], val=val))
+    for rn, r in zip(fl, ctx.cli(fl)):
+        ctx.count("override-flag-with-a-value")
+        ctx.distinct(("flagval", rn["val"], len(rn["args"])))
+        if r.cls in ("panic", "signal", "timeout"):
+            ctx.violation("abnormal-exit", dict(op="hdwallet " + " ".join(a for a in rn["args"] if a != PHRASE)), "result or ordinary error", str(r)[:300])
+        elif rn["val"] not in ("true", "1", "yes") and (r.cls != "error" or r.stdout != b""):
+            ctx.violation("guard", dict(op="hdwallet " + " ".join(a for a in rn["args"] if a != PHRASE), flag_value=rn["val"]), "error, nothing printed", str(r)[:300])
     for f in os.listdir(tmp):
         os.remove(os.path.join(tmp, f))
     os.rmdir(tmp)
